@@ -9,7 +9,7 @@ import sys
 sys.path.insert(0, "/verif/harness")
 import core  # noqa
 import translate_avs, translate_engine, translate_nxutil, translate_physical, translate_progress, translate_prune  # noqa
-import translate_retry, translate_run, translate_scheduler, translate_staged, translate_stale, translate_time, translate_traceback  # noqa
+import translate_mtime, translate_retry, translate_run, translate_scheduler, translate_staged, translate_stale, translate_time, translate_traceback  # noqa
 
 out = sys.argv[1]
 os.makedirs(out, exist_ok=True)
@@ -26,6 +26,7 @@ gens = {
     "EngineGen.v": translate_engine.translate(os.path.join(src, "_execution", "run_function_on_graph.py"), os.path.join(src, "_errors.py")),
     "QueuesGen.v": translate_scheduler.translate(os.path.join(src, "_execution", "scheduler.py")),
     "StagedGen.v": translate_staged.translate(os.path.join(src, "stores", "_file_store.py")),
+    "MtimeGen.v": translate_mtime.translate(os.path.join(src, "stores", "_file_store.py"), os.path.join(src, "stores", "_path_source.py")),
     "TimeGen.v": translate_time.translate(os.path.join(src, "_transformations", "caching.py")),
     "RunGen.v": translate_run.translate(os.path.join(src, "_run.py"), os.path.join(src, "_transformations", "caching.py"), os.path.join(src, "_execution", "run_physical.py")),
 }
@@ -36,7 +37,7 @@ for f in os.listdir(gen_src):
 for name, text in gens.items():
     open(os.path.join(out, name), "w").write(text)
 order = ["ProgPrims", "StaleGen", "StaleLink", "PruneGen", "PruneLink", "RetryGen", "RetryLink", "AvsGen", "AvsLink", "PhysicalGen", "PhysicalLink", "ProgressGen",
-         "ProgressLink", "TracebackGen", "TracebackLink", "TopoGen", "TopoLink", "EngineGen", "EngineLink", "QueuesGen", "QueuesLink", "StagedGen", "StagedLink", "TimeGen", "TimeLink", "RunGen", "RunLink"]
+         "ProgressLink", "TracebackGen", "TracebackLink", "TopoGen", "TopoLink", "EngineGen", "EngineLink", "QueuesGen", "QueuesLink", "StagedGen", "StagedLink", "MtimeGen", "MtimeLink", "TimeGen", "TimeLink", "RunGen", "RunLink"]
 closed = 0
 for m in order:
     p = subprocess.run(["timeout", "600", "coqc", "-Q", os.path.join(core.COQ, "theories"), core.LOGICAL, "-Q", out, "UJGen", "-w", "none", os.path.join(out, m + ".v")],
